@@ -434,6 +434,130 @@ Section S.
   End Hill.
 
   (* ------------------------------------------------------------------ *)
+  (* C08: parameters stay in range, untouched parameters stay untouched  *)
+
+  Section Ranges.
+    (* what is known about a clamped good sample, for the numeric instance at hand *)
+    Variable good : T -> Prop.                   (* e.g. "not NaN" on binary64; True on the reals *)
+    Variable inr : T -> T -> T -> Prop.          (* inr lo hi v: lo <= v <= hi *)
+    Hypothesis Hclamp : forall lo hi x, good x -> inr lo hi lo -> inr lo hi (nclamp lo hi x).
+
+    (* all handles on one cell declare the same range *)
+    Definition compatible (hs : list (handle NN)) : Prop :=
+      forall h1 h2, In h1 hs -> In h2 hs -> h_cell h1 = h_cell h2 -> h_min h1 = h_min h2 /\ h_max h1 = h_max h2.
+
+    Definition in_ranges (hs : list (handle NN)) (ps : list T) : Prop :=
+      forall h, In h hs -> inr (h_min h) (h_max h) (nth (h_cell h) ps n0).
+
+    (* cells no handle points to *)
+    Definition untouched (hs : list (handle NN)) (ps ps' : list T) : Prop :=
+      forall k, (forall h, In h hs -> h_cell h <> k) -> nth k ps' n0 = nth k ps n0.
+
+    Lemma nth_set_nth_same (l : list T) i v d : (i < length l)%nat -> nth i (set_nth l i v) d = v.
+    Proof. revert i. induction l as [|x xs IH]; intros [|i] H; cbn in *; try lia; auto. apply IH. lia. Qed.
+
+    (* the ranges a handle list declares, as a function of the cell *)
+    Definition same_ranges (hs hs' : list (handle NN)) : Prop :=
+      forall h', In h' hs' -> exists h, In h hs /\ h_cell h = h_cell h' /\ h_min h = h_min h' /\ h_max h = h_max h'.
+
+    Lemma set_nth_In {A} (l : list A) i v x : In x (set_nth l i v) -> x = v \/ In x l.
+    Proof.
+      revert i. induction l as [|y ys IH]; intros [|i] H; cbn in *; auto.
+      - destruct H as [->|H]; auto.
+      - destruct H as [->|H]; auto. destruct (IH _ H); auto.
+    Qed.
+
+    (* one proposal step preserves "every handle's cell is within its range", and touches only the cell
+       of the drawn handle *)
+    Lemma mc_step_ranges c st d hs0 :
+      same_ranges hs0 (handles st) -> compatible hs0 ->
+      (forall h, In h hs0 -> (h_cell h < length (params st))%nat /\ inr (h_min h) (h_max h) (h_min h)) ->
+      in_ranges hs0 (params st) ->
+      (forall h, nth_error (handles st) (d_idx d) = Some h ->
+         good (sample NN h (get_cell NN (params st) (h_cell h)) (nmul (max_step c) (ratio st)) (d_g d))) ->
+      let st' := mc_step c st d in
+      same_ranges hs0 (handles st') /\ in_ranges hs0 (params st') /\ untouched hs0 (params st) (params st')
+      /\ length (params st') = length (params st).
+    Proof.
+      intros Hsame Hcomp Hwf Hin Hgood. cbv zeta. unfold Optimiser.mc_step.
+      destruct (nth_error (handles st) (d_idx d)) as [h|] eqn:E.
+      2:{ cbn. split; [exact Hsame|]. split; [exact Hin|]. split; [intros k _; reflexivity|reflexivity]. }
+      cbv zeta. specialize (Hgood h eq_refl).
+      assert (Hh : In h (handles st)) by (eapply nth_error_In; eassumption).
+      destruct (Hsame h Hh) as (h0 & Hh0 & Ec & Emin & Emax).
+      destruct (Hwf h0 Hh0) as [Hlen Hlo]. rewrite Ec in Hlen.
+      set (v := get_cell NN (params st) (h_cell h)) in *.
+      set (prop := nclamp (h_min h) (h_max h) _).
+      assert (Hprop : inr (h_min h) (h_max h) prop).
+      { unfold prop. apply Hclamp; [exact Hgood|]. rewrite <- Emin, <- Emax. exact Hlo. }
+      assert (Hsame' : same_ranges hs0 (set_nth (handles st) (d_idx d) (with_old NN h v))).
+      { intros h' Hh'. apply set_nth_In in Hh'. destruct Hh' as [->|Hh'].
+        - exists h0. cbn. auto.
+        - now apply Hsame. }
+      destruct (Optimiser.accept _ _ _ _ _ _); cbn [params handles].
+      - (* accepted: the drawn cell holds the clamped sample *)
+        split; [exact Hsame'|]. split; [|split].
+        + intros g Hg. destruct (Nat.eq_dec (h_cell g) (h_cell h)) as [Eq|Ne].
+          * rewrite Eq, nth_set_nth_same by exact Hlen.
+            destruct (Hcomp g h0 Hg Hh0 (eq_trans Eq (eq_sym Ec))) as [-> ->]. rewrite Emin, Emax. exact Hprop.
+          * rewrite nth_set_nth_other by exact Ne. now apply Hin.
+        + intros k Hk. rewrite nth_set_nth_other; [reflexivity|]. intros ->. apply (Hk h0 Hh0). exact Ec.
+        + apply set_nth_length.
+      - (* rejected: the old value is written back *)
+        unfold v, get_cell. rewrite set_nth_restore.
+        split; [exact Hsame'|]. split; [exact Hin|]. split; [intros k _; reflexivity|reflexivity].
+    Qed.
+
+    (* every sample drawn along the run is good (on binary64: not NaN) *)
+    Fixpoint all_samples_good (c : cfg) (st : ost) (draws : list draw) : Prop :=
+      match draws with
+      | [] => True
+      | d :: ds =>
+          (fin st = false -> forall h, nth_error (handles st) (d_idx d) = Some h ->
+             good (sample NN h (get_cell NN (params st) (h_cell h)) (nmul (max_step c) (ratio st)) (d_g d)))
+          /\ all_samples_good c (advance c st d) ds
+      end.
+
+    Lemma advance_ranges c st d hs0 :
+      same_ranges hs0 (handles st) -> compatible hs0 ->
+      (forall h, In h hs0 -> (h_cell h < length (params st))%nat /\ inr (h_min h) (h_max h) (h_min h)) ->
+      in_ranges hs0 (params st) ->
+      (fin st = false -> forall h, nth_error (handles st) (d_idx d) = Some h ->
+         good (sample NN h (get_cell NN (params st) (h_cell h)) (nmul (max_step c) (ratio st)) (d_g d))) ->
+      let st' := advance c st d in
+      same_ranges hs0 (handles st') /\ in_ranges hs0 (params st') /\ untouched hs0 (params st) (params st')
+      /\ length (params st') = length (params st).
+    Proof.
+      intros Hsame Hcomp Hwf Hin Hgood. cbv zeta.
+      destruct (fin st) eqn:Hfin.
+      { rewrite C06_fin_frozen by assumption. split; [exact Hsame|]. split; [exact Hin|]. split; [intros k _; reflexivity|reflexivity]. }
+      destruct (mc_step_ranges c st d hs0 Hsame Hcomp Hwf Hin (Hgood eq_refl)) as (H1 & H2 & H3 & H4).
+      destruct (advance_cases NN fexp score c st d Hfin) as [-> | (-> & _ & _)]; [auto|].
+      rewrite end_loop_params, end_loop_handles. auto.
+    Qed.
+
+    (* C08: along every run whose samples are good, every parameter a handle points to stays within the
+       range the handle declares, and every other parameter keeps its value *)
+    Theorem C08_ranges_invariant c hs0 draws : forall st,
+      same_ranges hs0 (handles st) -> compatible hs0 ->
+      (forall h, In h hs0 -> (h_cell h < length (params st))%nat /\ inr (h_min h) (h_max h) (h_min h)) ->
+      in_ranges hs0 (params st) -> all_samples_good c st draws ->
+      let st' := run c st draws in
+      in_ranges hs0 (params st') /\ untouched hs0 (params st) (params st').
+    Proof.
+      induction draws as [|d ds IH]; intros st Hsame Hcomp Hwf Hin Hgood; cbv zeta.
+      - cbn. split; [exact Hin|]. intros k _. reflexivity.
+      - destruct Hgood as [Hg Hgs].
+        destruct (advance_ranges c st d hs0 Hsame Hcomp Hwf Hin Hg) as (H1 & H2 & H3 & H4).
+        rewrite run_cons.
+        assert (Hwf' : forall h, In h hs0 -> (h_cell h < length (params (advance c st d)))%nat /\ inr (h_min h) (h_max h) (h_min h)).
+        { intros h Hh. rewrite H4. now apply Hwf. }
+        destruct (IH (advance c st d) H1 Hcomp Hwf' H2 Hgs) as [I1 I2]. split; [exact I1|].
+        intros k Hk. rewrite (I2 k Hk). now apply H3.
+    Qed.
+  End Ranges.
+
+  (* ------------------------------------------------------------------ *)
   (* C08/C20: the returned state has a defined score; optimise returns   *)
 
   Section Deterministic.
